@@ -184,8 +184,9 @@ func judgeNumeric(c *Ctx, sc *Scenario, sp *numericSpec) *Violation {
 		}
 	}
 	// stub drift guard: one scenario in eight is run again on real git
+	// (every scenario when git-sizer passes an option the stub does not model)
 	// peers (possible whenever no size is merely declared)
-	if !sc.Plan.RealPeers && fnv64(sc.Hash())%8 == 0 {
+	if !sc.Plan.RealPeers && (fnv64(sc.Hash())%8 == 0 || len(res.Run.Unmodelled) > 0) {
 		declared := false
 		for _, o := range w.Objects {
 			if o.DeclaredSize != nil {
